@@ -236,8 +236,7 @@ theorem std_timeout_never_zero (c : Cfg) (a b : Nat) :
     | .attemptOver => c.qt.getD c.lt ≤ b ∧ a < c.lt
     | .lifetimeOver => c.lt ≤ a := by
   unfold queryLeft lifetimeLeft
-  unfold Generated.std_lifetime_over Generated.std_lifetime_left Generated.std_attempt_over Generated.std_query_left
-  simp only [decide_eq_true_eq]
+  simp only [std_lifetime_over_eq, std_lifetime_left_eq, std_attempt_over_eq, std_query_left_eq, decide_eq_true_eq]
   by_cases h1 : a ≥ c.lt
   · simp [h1]
   · simp only [h1, if_false]
@@ -255,7 +254,7 @@ theorem std_timeout_never_zero (c : Cfg) (a b : Nat) :
 theorem std_clock_expressions (e l t ll : Nat) :
     (Generated.std_lifetime_over e l = true ↔ e ≥ l) ∧ Generated.std_lifetime_left e l = l - e ∧
     (Generated.std_attempt_over e t = true ↔ e ≥ t) ∧ Generated.std_query_left e t ll = Nat.min (t - e) ll := by
-  refine ⟨?_, rfl, ?_, rfl⟩
+  refine ⟨?_, std_lifetime_left_eq e l, ?_, std_query_left_eq e t ll⟩
   · rw [std_lifetime_over_eq]; simp
   · rw [std_attempt_over_eq]; simp
 
